@@ -207,6 +207,8 @@ def block_chain_labels(rec):
             return "bounds" if op == "Conditional" and has_panic(n) else op
         return op.split(".")[-1]
     cur, chain, steps = nodes[blocks[0]][2][0], [], 0
+    if cur not in order:
+        return []                     # no order edge leaves Input: a block without side effects
     while cur in order and steps < 10000:
         nxt = order[cur]
         if len(nxt) != 1:
